@@ -1250,3 +1250,11 @@ def _ri_bounds(m, c):
     if isinstance(rg, Struct):
         return Ref(r.cell, r.path + (("f", k),), False)
     return m.temp_ref((rg.lo, rg.hi)[k])
+
+
+@model("ExactSizeIterator::len")
+def _exact_len(m, c):
+    it = get_it(m, c.args[0])
+    if isinstance(it, ListIt):
+        return it.remaining()
+    return len(drain(m, it.clone()))
